@@ -10,6 +10,12 @@ CONSTANTS
   PreStarted = FALSE
   FixedStopOrder = 2
   ResetInRun = TRUE
+  BMin = 4
+  BMax = 18
+  BMulP = 3
+  BMulQ = 2
+  Sleeps = {8}
+  PauseMax = FALSE
 SPECIFICATION Spec
 INVARIANT StopCanReturn
 CHECK_DEADLOCK FALSE
